@@ -24,7 +24,7 @@ CONFIG = dict(
         "the total weight of a set built through the plain builder is at most 2^31-1 (larger totals are rejected, see C11)",
     ],
     units=[
-        dict(test="TestC12Canonical", quick=60000, thorough=3200000, shards=16),
-        dict(test="TestC12Big", quick=60000, thorough=3200000, shards=16),
+        dict(test="TestC12Canonical", quick=60000, thorough=6400000, shards=16),
+        dict(test="TestC12Big", quick=60000, thorough=6400000, shards=16),
     ],
 )
